@@ -35,6 +35,9 @@ def main():
     elif pid == 'C13':
         import server
         server.main(pid, 'quick' if tier == 'replay' else tier, rp)
+    elif pid == 'C14':
+        import dial
+        dial.main(pid, 'quick' if tier == 'replay' else tier, rp)
     elif pid == 'C12':
         import after
         after.main(pid, 'quick' if tier == 'replay' else tier, rp)
